@@ -800,7 +800,7 @@ func emptyMgmt(c pomCase, variant string) int {
 		return 1
 	case "f":
 		return 2
-	case "c", "d":
+	case "c", "d", "a":
 		return 0
 	}
 	mr := layoutRng(layoutKey(c) + "#mgmt")
@@ -812,13 +812,7 @@ func emptyMgmt(c pomCase, variant string) int {
 
 // shapes: layout variants that the writer of the unrepaired tree does not handle; each is switched on by the verif diff of its repair.
 // A variant is drawn from the pom part of the case line (its own generator per name, so that the other layout choices stay as they are).
-var shapes = map[string]bool{
-	"exclusion-bar": true, // fix <commit1>: Write panicked (deps.dev cannot decode the exclusions attribute)
-	"empty-prop-selfclosing": true, // fix <commit2>: <sfx/> was patched into <sfx/>.1
-	"blank-type": true, // fix <commit3>: <type> </type> made the writer miss the dependency
-	"project-tag": true, // fix <commit4>: the start tag of <project> was searched as text
-	"foreign": true, // fix <commit5>: sections were handled at any depth
-}
+var shapes = map[string]bool{}
 
 func variantOn(c pomCase, name string, oneIn int) bool {
 	return shapes[name] && layoutRng(layoutKey(c)+"#"+name).Intn(oneIn) == 0
@@ -845,6 +839,7 @@ func foreignText(s string) string {
 // renderPom writes the abstract pom as XML. variant "c" / "d" put a comment / CDATA inside the first
 // dependency's <version> (used only by the no-update identity cases), "e" / "f" see emptyMgmt.
 func renderPom(c pomCase, lr *rand.Rand, variant string) string {
+	attrs := variant == "a" // attributes on <dependency> / <properties> (finding C13/pom-attributes-dropped)
 	commentInVersion, cdataInVersion := variant == "c", variant == "d"
 	shape := emptyMgmt(c, variant)
 	wsr := layoutRng(layoutKey(c) + "#wsid")
@@ -902,7 +897,11 @@ func renderPom(c pomCase, lr *rand.Rand, variant string) string {
 			first = false
 			return
 		}
-		w(depth, "<dependency>")
+		if attrs {
+			w(depth, "<dependency combine.self=\"override\">")
+		} else {
+			w(depth, "<dependency>")
+		}
 		if d.ws {
 			w(depth+1, "<groupId> "+d.g+" </groupId>")
 			w(depth+1, "<artifactId>")
@@ -948,7 +947,11 @@ func renderPom(c pomCase, lr *rand.Rand, variant string) string {
 			}
 		}
 		if len(props) > 0 {
-			w(depth, "<properties>")
+			if attrs {
+				w(depth, "<properties combine.children=\"append\">")
+			} else {
+				w(depth, "<properties>")
+			}
 			for _, p := range props {
 				if p.value == "" && variantOn(c, "empty-prop-selfclosing", 2) {
 					w(depth+1, "<"+p.name+"/>")
@@ -1761,6 +1764,9 @@ func emitPom(r *rand.Rand, c pomCase, thorough bool, emit0 func(pomCase, string)
 	default:
 		emit(c0, false, false)
 	}
+	if r.Intn(8) == 0 { // the no-update case once more with attributes on <dependency> / <properties>
+		emit0(c0, "a")
+	}
 	if emptyElem {
 		// a key the pom does not hold goes to dependencyManagement: the element is there but has no <dependencies> to add it to
 		c1 := c
@@ -1862,6 +1868,7 @@ type pchCase struct {
 	SamePath   bool
 	ChildGroup bool `json:",omitempty"` // the child declares its own group id child.g (its parents are chain.g)
 	DirRP      []bool `json:",omitempty"` // with ExplicitRP: <relativePath>..</relativePath> (a directory) instead of ../pom.xml
+	AtDir      bool   `json:",omitempty"` // the module directories are named m@<level> (finding C13/pom-parent-path-at)
 }
 
 // pchGroup is the group id Read reports for a declaration.
@@ -1893,7 +1900,11 @@ func parsePch(t []string) pchCase {
 func pchDir(c pchCase, level int) string {
 	parts := []string{}
 	for l := c.Depth - 1; l >= level; l-- {
-		parts = append(parts, fmt.Sprintf("m%d", l))
+		if c.AtDir {
+			parts = append(parts, fmt.Sprintf("m@%d", l))
+		} else {
+			parts = append(parts, fmt.Sprintf("m%d", l))
+		}
 	}
 	return filepath.Join(parts...)
 }
@@ -2052,7 +2063,7 @@ func runPch(c pchCase) (line string, reply string) {
 		var pus []result.PackageUpdate
 		var us []string
 		touched := map[int]bool{}
-		var sentTo, added []string
+		var sentTo []string
 		for i, di := range c.Ups {
 			d := c.Decls[di]
 			if d.Profile != "" && d.Level > 0 {
@@ -2064,15 +2075,7 @@ func runPch(c pchCase) (line string, reply string) {
 				pus = append(pus, result.PackageUpdate{Name: name, VersionTo: c.To[i], Type: ty, Transitive: true})
 				us = append(us, strings.Join([]string{hs(name), hs(""), hs(""), hs("management"), hs(""), hs(c.To[i])}, ":"))
 				sentTo = append(sentTo, c.To[i])
-				if d.Mgmt {
-					touched[d.Level] = true // a dependencyManagement declaration (of the parent's profile) takes the dependencyManagement requirement
-				} else {
-					// fix <commit8>: a dependencyManagement requirement is never written into a declaration outside dependencyManagement:
-					// the manifest gets a dependencyManagement entry of its own
-					touched[0] = true
-					g, a := splitGA(name)
-					added = append(added, strings.Join([]string{hs("management"), hs(g), hs(a), hs("jar"), hs(""), hs(c.To[i])}, ":"))
-				}
+				touched[d.Level] = true
 				continue
 			}
 			for _, r := range reqList {
@@ -2128,7 +2131,7 @@ func runPch(c pchCase) (line string, reply string) {
 			return "r=ok-rereaderr"
 		}
 		after, _ := pchReqs(m2)
-		return fmt.Sprintf("r=ok chain=%s same=%s applied=%s added=%s", after, hx.B(same), applied, hx.Join(added, ","))
+		return fmt.Sprintf("r=ok chain=%s same=%s applied=%s", after, hx.B(same), applied)
 	})
 	return c.concrete() + " " + ups + " " + before, reply
 }
@@ -2179,6 +2182,7 @@ func genPch(r *rand.Rand) pchCase {
 			}
 		}
 	}
+	c.AtDir = r.Intn(12) == 0
 	for i := range c.Decls {
 		if r.Intn(2) == 0 || c.Decls[i].Profile != "" && c.Decls[i].Level > 0 {
 			c.Ups = append(c.Ups, i)
@@ -2778,7 +2782,7 @@ func main() {
 			case "nws":
 				line, reply := runNws(parseNws(t))
 				out.Emit(line, reply)
-			case "pom", "pomc", "pomd", "pome", "pomf":
+			case "pom", "pomc", "pomd", "pome", "pomf", "poma":
 				before, reply := runPom(parsePom(t), t[0][3:])
 				out.Emit(strings.Join(t[:5], " ")+" "+before, reply)
 			default:
